@@ -188,7 +188,7 @@ bt_en_decode(uint8_t *buf, size_t buf_size, bt_en_node_p *ret_data, size_t *ret_
 			items_count ++;
 			cur_pos += buf_off;
 			/* Is we in buff range? */
-			if (buf_max < cur_pos) {
+			if (buf_max <= cur_pos) {
 				error = EBADMSG; /* Out of range. */
 				break;
 			}
@@ -259,7 +259,7 @@ bt_en_decode(uint8_t *buf, size_t buf_size, bt_en_node_p *ret_data, size_t *ret_
 			items_count ++;
 			cur_pos += buf_off;
 			/* Is we in buff range? */
-			if (buf_max < cur_pos) {
+			if (buf_max <= cur_pos) {
 				error = EBADMSG; /* Out of range. */
 				break;
 			}
